@@ -203,7 +203,7 @@ func c01Run(c *mc.Ctx) {
 		if bits.UintSize == 64 {
 			// the top of the int32 position range: bitmaps of 2^25-1 and 2^25 words (256 MiB), the largest
 			// whose every position fits the int32 parameter; sparse pattern 9 (64-bit builds only)
-			jobs = append(jobs, job{1<<25 - 1, 9}, job{1 << 25, 9})
+			jobs = append([]job{{1<<25 - 1, 9}, {1 << 25, 9}}, jobs...) // first: they take longest
 			c.Add("bitmaps_of_2^31_bits", 1)
 		}
 		c.Par(len(jobs), func(ji int) {
@@ -373,6 +373,12 @@ func c01SweepBitmap(l, p int) []uint64 {
 				w[i] = 1 << 63
 			case l - 1:
 				w[i] = 1<<63 | 1<<62 | 1<<31 | 1
+			}
+		case 10:
+			// four all-ones words (256 ones: 8 select samples) at both ends and in the middle of a
+			// bitmap of 2^25 words
+			if i == 0 || i == l/2 || i == l-2 || i == l-1 {
+				w[i] = ^uint64(0)
 			}
 		default:
 			w[i] = uint64(i+3*l+1) * 0x9e3779b97f4a7c15
